@@ -1,6 +1,7 @@
 (* Correspondence for C14: the model's prediction against what /repo did. *)
 From Coq Require Import ZArith String List Bool.
 From Grpchan Require Import lib.Cases lib.Dec gen.Codes model.StatusHttp.
+From Grpchan Require model.UnaryMeta.   (* case terms name UnaryMeta.agrees *)
 Import ListNotations.
 Open Scope Z_scope.
 
@@ -11,6 +12,7 @@ Inductive case :=
                                                (* real server, default renderer: HTTP status and the code part of X-GRPC-Status *)
 | Client (hs : Z) (hdr : option string) (obs : Z)
                                                (* real client on a synthetic reply: resulting code *)
+| Agrees (what : string) (ok : bool)           (* a comparison evaluated in the case file: UnaryMeta.agrees on a real reply *)
 | EndToEnd (c : Z) (renderer_http : Z) (obs : Z). (* handler returns c, renderer writes renderer_http (0 = default), client sees obs *)
 
 Definition check_case (k : case) : bool :=
@@ -20,6 +22,7 @@ Definition check_case (k : case) : bool :=
   | Render c ended oh ohdr =>
       (renderer_status (server_err_code c) ended =? oh) && String.eqb (status_header_code c) ohdr
   | Client hs hdr obs => client_code hs hdr =? obs
+  | Agrees _ ok => ok
   | EndToEnd c rh obs =>
       client_code (if rh =? 0 then renderer_status (server_err_code c) false else rh)
                   (Some (status_header_code c)) =? obs
@@ -42,6 +45,7 @@ Definition oracle_case (k : case) : bool :=
            | Some h => oh =? h
            | None => oh =? 500
            end
+  | Agrees _ ok => ok
   | Client hs None obs => Bool.eqb (obs =? 0) ((200 <=? hs) && (hs <? 300))
   | Client _ (Some h) obs =>
       (* a status header that names one of the defined failure codes in its canonical spelling decides the code,
